@@ -37,6 +37,8 @@ type c18GlueCase struct {
 	PubOK     bool `json:"pub_ok"`
 	Err       bool `json:"err"`
 	EmptyText bool `json:"empty_text"` // the handler error has the empty text
+	ErrKind   int  `json:"errkind"`    // as c18Step.ErrKind
+	CtxState  int  `json:"ctxstate"`   // handler context when it returned: 0 live, 1 cancelled, 2 timed out
 
 	Op     int             `json:"op"`
 	Res    int             `json:"res"`
@@ -108,13 +110,31 @@ func c18RunGlueCase(g *c18GlueCase, in *script.Interner, n int) {
 			return err
 		}
 	}
-	herr := error(nil)
-	if g.Err {
-		herr = fmt.Errorf("glue handler error %d", n)
-		if g.EmptyText {
-			herr = errors.New("")
+	var cancelCtx func()
+	mkErr := func(ctx context.Context) error {
+		if !g.Err {
+			return nil
+		}
+		var herr error
+		switch g.ErrKind {
+		case 3:
+			herr = context.DeadlineExceeded
+		case 4:
+			cancelCtx()
+			g.CtxState = 1
+			herr = ctx.Err()
+		case 5:
+			<-ctx.Done()
+			g.CtxState = 2
+			herr = fmt.Errorf("interrupted: %w", ctx.Err())
+		default:
+			herr = fmt.Errorf("glue handler error %d", n)
+			if g.EmptyText {
+				herr = errors.New("")
+			}
 		}
 		g.ErrID = w.errID(herr.Error())
+		return herr
 	}
 	msg := message.NewMessage(fmt.Sprintf("glue-cmd-%d", n), []byte(`{"id":"g"}`))
 	if g.HasOp {
@@ -125,6 +145,12 @@ func c18RunGlueCase(g *c18GlueCase, in *script.Interner, n int) {
 	if g.Orig {
 		ctx = cqrs.CtxWithOriginalMessage(ctx, msg)
 	}
+	if g.Err && g.ErrKind == 5 {
+		ctx, cancelCtx = context.WithTimeout(ctx, 50*time.Microsecond)
+	} else {
+		ctx, cancelCtx = context.WithCancel(ctx)
+	}
+	defer cancelCtx()
 	var h cqrs.CommandHandler
 	if g.Marshal {
 		be, err := requestreply.NewPubSubBackend[c18Res](cfg, requestreply.BackendPubsubJSONMarshaler[c18Res]{})
@@ -138,7 +164,7 @@ func c18RunGlueCase(g *c18GlueCase, in *script.Interner, n int) {
 		g.Enc = [2]int{g.Res, in.ID("p:" + string(b))}
 		h = requestreply.NewCommandHandlerWithResult[c18Cmd, c18Res]("g", be, func(ctx context.Context, cmd *c18Cmd) (c18Res, error) {
 			g.Events = append(g.Events, []interface{}{"call"})
-			return res, herr
+			return res, mkErr(ctx)
 		})
 	} else {
 		be, err := requestreply.NewPubSubBackend[c18BadRes](cfg, requestreply.BackendPubsubJSONMarshaler[c18BadRes]{})
@@ -150,7 +176,7 @@ func c18RunGlueCase(g *c18GlueCase, in *script.Interner, n int) {
 		g.Enc = [2]int{g.Res, -1}
 		h = requestreply.NewCommandHandlerWithResult[c18Cmd, c18BadRes]("g", be, func(ctx context.Context, cmd *c18Cmd) (c18BadRes, error) {
 			g.Events = append(g.Events, []interface{}{"call"})
-			return c18BadRes{C: make(chan int)}, herr
+			return c18BadRes{C: make(chan int)}, mkErr(ctx)
 		})
 	}
 	g.Failed = h.Handle(ctx, &c18Cmd{ID: "g"}) != nil
@@ -282,9 +308,9 @@ func c18Glue(in *script.Interner) ([]*c18GlueCase, []c18Check) {
 						for _, marshal := range bools {
 							for _, topic := range bools {
 								for _, pubOK := range bools {
-									for e := 0; e < 3; e++ { // no error, error with a text, error with the empty text
+									for e := 0; e < 6; e++ { // no error, error with a text, with the empty text, context.DeadlineExceeded, own ctx.Err() (cancelled), wrapped own ctx.Err() (timed out)
 										n++
-										g := &c18GlueCase{AckErrors: ack, Modify: modify, ErrH: errh, Orig: orig, HasOp: hasOp, Marshal: marshal, TopicOK: topic, PubOK: pubOK, Err: e > 0, EmptyText: e == 2}
+										g := &c18GlueCase{AckErrors: ack, Modify: modify, ErrH: errh, Orig: orig, HasOp: hasOp, Marshal: marshal, TopicOK: topic, PubOK: pubOK, Err: e > 0, EmptyText: e == 2, ErrKind: []int{0, 0, 0, 3, 4, 5}[e]}
 										c18RunGlueCase(g, in, n)
 										cases = append(cases, g)
 									}
